@@ -52,6 +52,10 @@ MODES = {
     "falsy-exception":  ("raise type('Falsy', (Exception,), {'__bool__': lambda a: False, '__len__': lambda a: 0})()", 1, False),
     "unprintable-exception": ("raise type('Unprintable', (Exception,), {'__str__': lambda a: 1 / 0, '__repr__': lambda a: 1 / 0})()", 1, False),
     "equal-to-all-exception": ("raise type('EqAll', (Exception,), {'__eq__': lambda a, b: True, '__ne__': lambda a, b: False, '__hash__': lambda a: 0})()", 1, False),
+    # application errors that carry attributes named like those of exit requests (code, args, errno, returncode)
+    "exception-with-code-None": ("raise type('AppError', (Exception,), {'code': None})('x')", 1, False),
+    "exception-with-code-0": ("raise type('AppError', (Exception,), {'code': 0, 'returncode': 0, 'errno': 0, 'status': 0, 'exitcode': 0})('x')", 1, False),
+    "exception-with-code-3": ("raise type('AppError', (Exception,), {'code': 3})('x')", 1, False),
     "KeyboardInterrupt": ("raise KeyboardInterrupt", "sigint", False),
     "raise SystemExit": ("raise SystemExit", 0, False),
     "raise SystemExit(0)": ("raise SystemExit(0)", 0, False),
